@@ -85,6 +85,7 @@ class ActionContext(abc.ABC):
         :return: Tuple with WatchResult, collected variables, and the log string for the expression
         """
         var_processor = VariableSetProcessor({}, self.var_cache, self.collection_config)
+        mark = self.var_cache.mark()
 
         try:
             ok, result = self.trigger_context.try_evaluate(watch)
@@ -100,6 +101,8 @@ class ActionContext(abc.ABC):
             return WatchResult(source, watch, variable_id), var_processor.var_lookup, log_str
         except BaseException as e:
             logging.exception("Error evaluating watch %s", watch)
+            # what was collected of this watch is thrown away, so are the ids it used
+            self.var_cache.rollback(mark)
             return WatchResult(source, watch, None, str(e)), {}, str(e)
 
     def process_capture_variable(self, name: str, variable: any) -> Tuple[WatchResult, Dict[str, Variable], str]:
